@@ -707,7 +707,7 @@ func (w *world) modelInputs(m map[string]*Term) []inputRec {
 				}
 			}
 			r.Hex = hex.EncodeToString(bs)
-		case "choice":
+		case "choice", "sched", "select":
 			// V already set
 		case "mathint":
 			if c := m[in.terms[0].name]; c != nil && c.iv != nil {
